@@ -141,6 +141,20 @@ def check_content(m, model, path):
     return None
 
 
+def size_defect(m):
+    """True iff FlattenedSize() of m or of a Message nested in it disagrees with what Flatten() writes (the symptom of the
+    repaired field-name-length defect): only then is a difference attributed to that defect's key."""
+    try:
+        if m.FlattenedSize() != len(m.GetFlattenedBuffer()): return True
+        for n in m.GetFieldNames():
+            if m.GetFieldType(n) == message.B_MESSAGE_TYPE:
+                for sub in m.GetMessages(n):
+                    if size_defect(sub): return True
+    except Exception:
+        pass
+    return False
+
+
 def handle(req):
     stats = {}; key = None; detail = ''; pyhex = '-'
     cpp = bytes.fromhex(req['cpp'])
@@ -174,7 +188,7 @@ def handle(req):
             m = build_native(req['script'], int(req.get('case', 0)), stats); bp = m.GetFlattenedBuffer(); fs = m.FlattenedSize(); stats['py_native_built'] = 1
             if bp != cpp:
                 pyhex = bp.hex() if len(bp) <= 300000 else '-'
-                fail(DEFECT if nonascii_nested else 'py|bytes-python-vs-cpp', describe_diff('c++', cpp, 'python', bp))
+                fail(DEFECT if (nonascii_nested and size_defect(m)) else 'py|bytes-python-vs-cpp', describe_diff('c++', cpp, 'python', bp))
             elif fs != len(bp):
                 fail(DEFECT if nonascii_any else 'py|flattenedsize-vs-flatten', 'FlattenedSize() says %d, Flatten() writes %d bytes' % (fs, len(bp)))
         except Exception as e:
@@ -184,7 +198,7 @@ def handle(req):
             why = check_content(p, model, '')
             if why: fail('py|parse-of-cpp-bytes-content', why)
             back = p.GetFlattenedBuffer()
-            if back != cpp: fail(DEFECT if nonascii_nested else 'py|reflatten-of-cpp-bytes', describe_diff('c++', cpp, 'python', back))
+            if back != cpp: fail(DEFECT if (nonascii_nested and size_defect(p)) else 'py|reflatten-of-cpp-bytes', describe_diff('c++', cpp, 'python', back))
             elif p.FlattenedSize() != len(cpp) and not nonascii_any: fail('py|flattenedsize-vs-flatten', 'after parsing: FlattenedSize() %d, bytes %d' % (p.FlattenedSize(), len(cpp)))
         except Exception as e:
             fail('py|parse-of-cpp-bytes-exception', '%r\n%s' % (e, traceback.format_exc()[-600:]))
